@@ -51,7 +51,9 @@ HAND = [
      "Tagged": {"oneOf": [{"type": "object", "required": ["A"], "properties": {"A": _ref("Zed")}, "additionalProperties": False},
                           {"type": "object", "required": ["B"], "properties": {"B": {"type": "integer", "minimum": 3}}, "additionalProperties": False}]},
      "Name": {"type": "string", "maxLength": 8}, "Colour": {"type": "string", "enum": ["red", "green"]},
-     "Plain": {"type": "string"}, "Count": {"type": "integer", "minimum": 3}}}),
+     "Plain": {"type": "string"}, "Count": {"type": "integer", "minimum": 3},
+     # names that EXTEND another definition's name by a word (a patch of `Zed` / `Name` is not a patch of these)
+     "ZedRate": {"type": "object", "properties": {"hz": {"type": "number"}}}, "NameTag": {"type": "string", "maxLength": 4}}}),
  # named types at which a containment cycle is cut (the Box goes INTO the named type, not into an anonymous Option)
  ("recursive", {"title": "Root", "type": "object", "properties": {"e": _ref("Expr"), "t": _ref("Tree")},
    "definitions": {
